@@ -80,15 +80,18 @@ the monotone cursor.  `layoutStartsB` (Bool, follows the layout like layoutNW: a
 members, seg_start_pos <= cursor OR every member is already generated so that no address is assigned) is NOT implied by
 layoutNW alone - a nested segment whose already generated first member is SHT_NULL-typed (or has index 0) starts at that
 section's arbitrary stored offset - and is discharged for flat objects (`layoutStartsB_of_flat`), for flat + fully
-nested segments (`layoutStartsB_of_mixed`, the NestedDomain) and per segment when the generated first member occupies
-file space (`segStartLeB_of_occ`).  Restated theorems: `save_twice_runs'` (ResaveOkC + layoutNW + layoutStartsB),
+nested segments (`layoutStartsB_of_mixed`, the NestedDomain), per segment when the generated first member occupies
+file space (`segStartLeB_of_occ`), and for ANY nesting (also partial) from layoutNW and the static condition `HeadOk`
+(Bool form `headOkB`): every segment has < 2^16 members and its first member is neither SHT_NULL-typed nor section 0
+(`layoutStartsB_of_static`, invariant `GenLe`: under layoutNW every generated proper section starts at or below the
+cursor; `save_twice_runs_static'`).  Restated theorems: `save_twice_runs'` (ResaveOkC + layoutNW + layoutStartsB),
 `save_twice_runs_flat'` (ResaveOkC + layoutNW + layoutDomB), `Compose.save_load_save_flat'` (`ResaveDomainC` =
 ResaveDomain with ResaveOkC), `Compose.save_load_save_nested_input'` (NestedDomain + ResaveOkC); `stepNoWrap_of_layoutNW`
 shows the derived fact at a member.  Non-vacuity: exObj32, exTwoM, exNestedM.
 Not proved: `members_recomputed` for nested segments from structural hypotheses (a TLS section inside a PT_LOAD and a
 nested PT_TLS - the usual nesting - is dropped from the PT_LOAD's list by the loader, so the lists do differ there);
-`layoutStartsB` for PARTIALLY nested segments whose generated first member does not occupy file space (kept as a Bool
-check on the input).
+`layoutStartsB` when a nested segment's first member is SHT_NULL-typed or section 0 (there it can fail; kept as a
+Bool check on the input).
 Correspondence: family load.
 Oracle: bytes of the first save == bytes of a second save of the same object; bytes of
 save(load(save(obj))) == bytes of save(obj).  Known open finding F13 (address-less NOBITS member with
@@ -169,6 +172,9 @@ THEOREMS = ["ElfioVerif.C06.save_twice_witness",
             "ElfioVerif.C06.segStartLeB_of_occ",
             "ElfioVerif.C06.layoutStartsB_of_flat",
             "ElfioVerif.C06.layoutStartsB_of_mixed",
+            "ElfioVerif.C06.segStartLeB_of_genLe",
+            "ElfioVerif.C06.layoutStartsB_of_static",
+            "ElfioVerif.C06.save_twice_runs_static'",
             "ElfioVerif.C06.resaveOkR_of_layoutNW",
             "ElfioVerif.C06.stepNoWrap_of_layoutNW",
             "ElfioVerif.C06.save_twice_runs'",
